@@ -176,13 +176,14 @@ theorem aux_fold_wd2 (mu : Rat) (slots : List Slot) : ∀ (a : Rat),
 
 /-- **uncertainty**: the squared standard deviation is the documented unbiased weighted estimator
 `V1 / (V1² − V2) · Σ wᵢ (xᵢ − μ)²` over the contributing neighbours (V1 = Σ wᵢ, V2 = Σ wᵢ²), and is
-undefined exactly when at most one neighbour contributes (or nothing has positive weight) -/
+undefined exactly when at most one neighbour contributes, nothing has positive weight, or the estimator's own denominator
+`V1² − V2` vanishes (all but one of the contributing weights are zero: the real code divides by zero there and delivers inf / NaN) -/
 theorem variance_eq_estimator (slots : List Slot) :
     variance slots =
       match weighted slots with
       | none => none
       | some mu =>
-        if (liveSlots slots).length > 1 then
+        if (liveSlots slots).length > 1 ∧ sumW (liveSlots slots) ^ 2 - sumW2 (liveSlots slots) ≠ 0 then
           some (sumW (liveSlots slots) / (sumW (liveSlots slots) ^ 2 - sumW2 (liveSlots slots)) * sumWD2 mu (liveSlots slots))
         else none := by
   unfold variance
@@ -194,5 +195,8 @@ theorem variance_eq_estimator (slots : List Slot) :
 /-! non-vacuity -/
 example : weighted [⟨true, 1, 4⟩, ⟨false, 5, 100⟩, ⟨true, 3, 8⟩] = some 7 := by decide +kernel
 example : count [⟨true, 1, 4⟩, ⟨false, 5, 100⟩, ⟨true, 3, 8⟩] = 2 := by decide
+/-- two contributing neighbours, one with weight 0: the estimator's denominator vanishes, the result is undefined (the code: inf) -/
+example : variance [⟨true, 1/4, 5⟩, ⟨true, 0, -2⟩] = none := by decide +kernel
+example : variance [⟨true, 1, 4⟩, ⟨true, 3, 8⟩] = some 8 := by decide +kernel
 
 end PyresampleModel.C04
